@@ -291,6 +291,22 @@ func c03Scenarios(tier string) []*world.Scenario {
 			}
 		}
 	}
+	// (k) a client that leaves by QUIT right behind its request, while the node's reply to that request arrives in the same
+	// read as replies for OTHER clients of that node connection (how many replies a read carries is an enumerated choice)
+	for _, first := range []string{"get", "mget"} {
+		var v Req
+		if first == "get" {
+			v = GetReq(keysA[0])
+		} else {
+			v = MGetReq(keysA[0], keysB[0])
+		}
+		quitter := ClientOf([]Req{v, QuitReq()}, true)
+		o1 := ClientOf([]Req{GetReq(keysA[1]), GetReq(keysA[2])}, true)
+		o2 := ClientOf([]Req{GetReq(keysA[3])}, true)
+		sc := &world.Scenario{Nodes: T3m(), Bound: b, CoalesceChoice: true, FreeKinds: []string{"coalesce"}, ReadCap: 256, WriteCap: 256,
+			Clients: []world.ClientSpec{quitter, o1, o2}}
+		mk("quit-behind-request-replies-coalesced/"+first, "client-close", sc)
+	}
 	// (f) backend connections that start with a handshake (AUTH and/or READONLY): the handshake replies under every
 	// segmentation with <= 2 cuts; none of them may surface as the reply to a client's request
 	for mask := 0; mask < 512; mask++ {
